@@ -1005,6 +1005,36 @@ class Interp:
         raise self.unsupported(st, "del statement")
 
     def s_Import(self, st: ast.Import, fr: Frame) -> None:
-        raise self.unsupported(st, "local import")
+        for a in st.names:
+            local = a.asname or a.name.split(".")[0]
+            target = a.name if a.asname else a.name.split(".")[0]
+            m = self.model.modules.get(target)
+            fr.locals[local] = ModuleV(m) if m is not None else ExternalV(target)
 
-    s_ImportFrom = s_Import
+    def s_ImportFrom(self, st: ast.ImportFrom, fr: Frame) -> None:
+        mod = fr.mod
+        is_pkg = mod.path.name == "__init__.py"
+        if st.level:
+            base = mod.name.split(".")
+            if not is_pkg:
+                base = base[:-1]
+            if st.level > 1:
+                base = base[: len(base) - (st.level - 1)]
+            if st.module:
+                base = base + st.module.split(".")
+            mname = ".".join(base)
+        else:
+            mname = st.module or ""
+        for a in st.names:
+            local = a.asname or a.name
+            m = self.model.modules.get(mname)
+            if m is None:
+                fr.locals[local] = ExternalV(f"{mname}.{a.name}")
+                continue
+            sub = self.model.modules.get(f"{mname}.{a.name}")
+            try:
+                fr.locals[local] = self.module_global(m, a.name, st)
+            except Unsupported:
+                if sub is None:
+                    raise
+                fr.locals[local] = ModuleV(sub)
